@@ -15,13 +15,14 @@
 //!   borrowed  the target borrows from the arrays (`&'a str`, `&'a [u8]`, `Cow<'a, str>`)
 #![allow(dead_code)]
 use serde::{Deserialize, Serialize};
+use serde_json::{json, Value};
 use std::borrow::Cow;
 use std::collections::{BTreeMap, BTreeSet, HashMap, HashSet, VecDeque};
 use std::fmt::Debug;
 
 /// what the `roundtrip` suite needs of a zoo type.  `'static`: values are generated from leaked data and read back
 /// from arrays pinned for the duration of the comparison (see `suites/roundtrip.rs::with_static`).
-pub trait ZooTy: Serialize + Deserialize<'static> + PartialEq + Debug + 'static {
+pub trait ZooTy: Serialize + Deserialize<'static> + PartialEq + Debug + Describe + 'static {
     /// the documented normalisation (identity unless the type has nested Options)
     fn norm(&mut self) {}
 }
@@ -33,11 +34,207 @@ fn collapse<T>(o: &mut Option<Option<T>>) {
     }
 }
 
+// ------------------------------------------------------------------------------------------------ type descriptions
+/// The description of a type in the type language of the Lean model (`SaModel.Roundtrip.Ty`,
+/// lean/SaModel/Roundtrip/Types.lean; wire form read by lean/Driver/TyJson.lean):
+///   {"t": "bool" | "i8" … "u64" | "f32" | "f64" | "char" | "str" | "bytes" | "unit"}
+///   {"t": "option" | "vec", "a": T}   {"t": "tuple", "a": [T…]}   {"t": "map", "k": T, "v": T}
+///   {"t": "struct", "n": name, "f": [[field name, skip_serializing_if = Option::is_none, T]…]}
+///   {"t": "tuple_struct", "n": name, "a": [T…]}   {"t": "newtype", "n": name, "a": T}   {"t": "unit_struct", "n": name}
+///   {"t": "enum", "n": name, "v": [{"n": variant name, "k": "unit" | "newtype" | "tuple" | "struct", "a": …}…]}
+/// A node may carry `"target": "str" | "bytes"`: the Deserialize side of that position is a BORROWED target (`&'de str`,
+/// `&'de [u8]`), which the model's `toTarget` does not describe (outside the grammar of the C04 theorems; counted).
+/// A node may carry `"de": T'`: its Deserialize side (what `from_type` and the reader see) is another type than its
+/// Serialize side (`&'de [u8]` without serde_bytes).
+/// Written ONCE per zoo type, by hand, beside the type; std types compose through the generic impls below.  The driver
+/// checks on every case that the model's `ser` / `toTraceTy` / `toTarget` evaluated on this description reproduce what
+/// the REAL derived impls did (recorded call stream, `from_type`, the `deserialize_*` / `visit_*` call log).
+pub trait Describe {
+    fn ty() -> Value;
+}
+pub fn d<T: Describe + ?Sized>() -> Value {
+    T::ty()
+}
+fn prim(t: &str) -> Value {
+    json!({ "t": t })
+}
+/// a field; `skip(..)` = `#[serde(skip_serializing_if = "Option::is_none")]`
+fn f(name: &str, ty: Value) -> Value {
+    json!([name, false, ty])
+}
+fn skip(name: &str, ty: Value) -> Value {
+    json!([name, true, ty])
+}
+fn st(name: &str, fields: Vec<Value>) -> Value {
+    json!({"t": "struct", "n": name, "f": fields})
+}
+fn tuple_struct(name: &str, tys: Vec<Value>) -> Value {
+    json!({"t": "tuple_struct", "n": name, "a": tys})
+}
+fn newtype(name: &str, ty: Value) -> Value {
+    json!({"t": "newtype", "n": name, "a": ty})
+}
+fn unit_struct(name: &str) -> Value {
+    json!({"t": "unit_struct", "n": name})
+}
+fn en(name: &str, variants: Vec<Value>) -> Value {
+    json!({"t": "enum", "n": name, "v": variants})
+}
+fn vu(name: &str) -> Value {
+    json!({"n": name, "k": "unit", "a": null})
+}
+fn vn(name: &str, ty: Value) -> Value {
+    json!({"n": name, "k": "newtype", "a": ty})
+}
+fn vt(name: &str, tys: Vec<Value>) -> Value {
+    json!({"n": name, "k": "tuple", "a": tys})
+}
+fn vs(name: &str, fields: Vec<Value>) -> Value {
+    json!({"n": name, "k": "struct", "a": fields})
+}
+/// `&'de str`: serialized as a string, deserialized with `deserialize_str` into a borrowed target
+fn borrowed_str() -> Value {
+    json!({"t": "str", "target": "str"})
+}
+/// `#[serde(with = "serde_bytes")]` on `Vec<u8>` / `ByteBuf`: `serialize_bytes`, owned buffer back
+fn byte_buf() -> Value {
+    prim("bytes")
+}
+
+macro_rules! describe_prim {
+    ($($t:ty => $n:expr),* $(,)?) => { $( impl Describe for $t { fn ty() -> Value { prim($n) } } )* };
+}
+describe_prim!(bool => "bool", i8 => "i8", i16 => "i16", i32 => "i32", i64 => "i64", u8 => "u8", u16 => "u16", u32 => "u32",
+    u64 => "u64", usize => "u64", isize => "i64", f32 => "f32", f64 => "f64", char => "char", String => "str", str => "str",
+    () => "unit", serde_bytes::ByteBuf => "bytes");
+/// `Cow<'static, str>` WITHOUT `#[serde(borrow)]`: deserialized through `String`
+impl Describe for Cow<'static, str> {
+    fn ty() -> Value {
+        prim("str")
+    }
+}
+impl<'a> Describe for &'a str {
+    fn ty() -> Value {
+        borrowed_str()
+    }
+}
+/// `&'de [u8]` without serde_bytes: the std `Serialize` for slices issues a SEQUENCE of u8, `Deserialize` asks for bytes
+impl<'a> Describe for &'a [u8] {
+    fn ty() -> Value {
+        json!({"t": "vec", "a": prim("u8"), "de": {"t": "bytes", "target": "bytes"}})
+    }
+}
+impl<T: Describe> Describe for Option<T> {
+    fn ty() -> Value {
+        json!({"t": "option", "a": T::ty()})
+    }
+}
+impl<T: Describe + ?Sized> Describe for Box<T> {
+    fn ty() -> Value {
+        T::ty()
+    }
+}
+macro_rules! describe_seq {
+    ($($t:ident),*) => { $( impl<T: Describe> Describe for $t<T> { fn ty() -> Value { json!({"t": "vec", "a": T::ty()}) } } )* };
+}
+describe_seq!(Vec, VecDeque, BTreeSet, HashSet);
+impl<T: Describe> Describe for [T] {
+    fn ty() -> Value {
+        json!({"t": "vec", "a": T::ty()})
+    }
+}
+/// a fixed-size array is a tuple of `N` equal types to serde
+impl<T: Describe, const N: usize> Describe for [T; N] {
+    fn ty() -> Value {
+        json!({"t": "tuple", "a": vec![T::ty(); N]})
+    }
+}
+macro_rules! describe_tuple {
+    ($(($($t:ident),+)),*) => { $( impl<$($t: Describe),+> Describe for ($($t,)+) { fn ty() -> Value { json!({"t": "tuple", "a": [$($t::ty()),+]}) } } )* };
+}
+describe_tuple!((A), (A, B), (A, B, C));
+impl<K: Describe, V: Describe> Describe for BTreeMap<K, V> {
+    fn ty() -> Value {
+        json!({"t": "map", "k": K::ty(), "v": V::ty()})
+    }
+}
+impl<K: Describe, V: Describe> Describe for HashMap<K, V> {
+    fn ty() -> Value {
+        json!({"t": "map", "k": K::ty(), "v": V::ty()})
+    }
+}
+/// `Result` has a hand-written std impl: an enum `Result` with the newtype variants `Ok`, `Err`
+impl<T: Describe, E: Describe> Describe for Result<T, E> {
+    fn ty() -> Value {
+        en("Result", vec![vn("Ok", T::ty()), vn("Err", E::ty())])
+    }
+}
+/// `serde_arrow::utils::Item<T>` serializes / deserializes through a private derived `struct Item { item: T }`
+impl<T: Describe> Describe for serde_arrow::utils::Item<T> {
+    fn ty() -> Value {
+        st("Item", vec![f("item", T::ty())])
+    }
+}
+
+/// the model's `toTarget` (lean/SaModel/Roundtrip/Bridge.lean) on a description, in the descriptor language of dynde.rs; the
+/// driver recomputes it with the Lean function and refuses a difference (`roundtrip/bridge/target-…`).  A `"target"`
+/// override (borrowed position) wins: such a type is outside the grammar.
+pub fn to_target(t: &Value) -> Value {
+    if let Some(de) = t.get("de") {
+        return to_target(de);
+    }
+    if let Some(o) = t.get("target") {
+        return o.clone();
+    }
+    let all = |a: &Value| -> Vec<Value> { a.as_array().map(|a| a.iter().map(to_target).collect()).unwrap_or_default() };
+    let fields = |a: &Value| -> Vec<Value> {
+        a.as_array().map(|a| a.iter().map(|e| json!([e[0], to_target(&e[2])])).collect()).unwrap_or_default()
+    };
+    match t["t"].as_str().unwrap_or("") {
+        "str" => json!("string"),
+        "bytes" => json!("byte_buf"),
+        "option" => json!({"option": to_target(&t["a"])}),
+        "vec" => json!({"seq": to_target(&t["a"])}),
+        "tuple" => json!({"tuple": all(&t["a"])}),
+        "tuple_struct" => json!({"tuple_struct": all(&t["a"])}),
+        "newtype" => json!({"newtype": to_target(&t["a"])}),
+        "unit_struct" => json!("unit_struct"),
+        "struct" => json!({"struct": fields(&t["f"])}),
+        "map" => json!({"map": [to_target(&t["k"]), to_target(&t["v"])]}),
+        "enum" => {
+            let vs: Vec<Value> = t["v"]
+                .as_array()
+                .map(|a| {
+                    a.iter()
+                        .map(|v| {
+                            let k = match v["k"].as_str().unwrap_or("") {
+                                "unit" => json!("unit"),
+                                "newtype" => json!({"newtype": to_target(&v["a"])}),
+                                "tuple" => json!({"tuple": all(&v["a"])}),
+                                _ => json!({"struct": fields(&v["a"])}),
+                            };
+                            json!([v["n"], k])
+                        })
+                        .collect()
+                })
+                .unwrap_or_default();
+            json!({"enum": vs})
+        }
+        other => json!(other), // bool, i8 … u64, f32, f64, char, unit
+    }
+}
+
 // ------------------------------------------------------------------------------------------------ generic wrapper
 /// the record wrapper for types that are not struct-like at the root (a real derived generic struct)
 #[derive(Serialize, Deserialize, Debug, PartialEq, Clone)]
 pub struct Wrap<T> {
     pub item: T,
+}
+
+impl<T: Describe> Describe for Wrap<T> {
+    fn ty() -> Value {
+        st("Wrap", vec![f("item", T::ty())])
+    }
 }
 
 // ------------------------------------------------------------------------------------------------ structs
@@ -58,10 +255,22 @@ pub struct Scalars {
     pub s: String,
 }
 
+impl Describe for Scalars {
+    fn ty() -> Value {
+        st("Scalars", vec![f("b", d::<bool>()), f("i8_", d::<i8>()), f("i16_", d::<i16>()), f("i32_", d::<i32>()), f("i64_", d::<i64>()), f("u8_", d::<u8>()), f("u16_", d::<u16>()), f("u32_", d::<u32>()), f("u64_", d::<u64>()), f("f32_", d::<f32>()), f("f64_", d::<f64>()), f("c", d::<char>()), f("s", d::<String>())])
+    }
+}
+
 #[derive(Serialize, Deserialize, Debug, PartialEq, Clone)]
 pub struct Sizes {
     pub u: usize,
     pub i: isize,
+}
+
+impl Describe for Sizes {
+    fn ty() -> Value {
+        st("Sizes", vec![f("u", d::<usize>()), f("i", d::<isize>())])
+    }
 }
 
 #[derive(Serialize, Deserialize, Debug, PartialEq, Clone)]
@@ -70,10 +279,22 @@ pub struct Inner {
     pub y: String,
 }
 
+impl Describe for Inner {
+    fn ty() -> Value {
+        st("Inner", vec![f("x", d::<i16>()), f("y", d::<String>())])
+    }
+}
+
 #[derive(Serialize, Deserialize, Debug, PartialEq, Clone)]
 pub struct InnerB {
     pub z: f64,
     pub deep: Inner,
+}
+
+impl Describe for InnerB {
+    fn ty() -> Value {
+        st("InnerB", vec![f("z", d::<f64>()), f("deep", d::<Inner>())])
+    }
 }
 
 #[derive(Serialize, Deserialize, Debug, PartialEq, Clone)]
@@ -83,17 +304,47 @@ pub struct Nested {
     pub tail: InnerB,
 }
 
+impl Describe for Nested {
+    fn ty() -> Value {
+        st("Nested", vec![f("id", d::<u32>()), f("inner", d::<Inner>()), f("tail", d::<InnerB>())])
+    }
+}
+
 #[derive(Serialize, Deserialize, Debug, PartialEq, Clone)]
 pub struct TupleStruct(pub i32, pub String, pub bool);
+
+impl Describe for TupleStruct {
+    fn ty() -> Value {
+        tuple_struct("TupleStruct", vec![d::<i32>(), d::<String>(), d::<bool>()])
+    }
+}
 
 #[derive(Serialize, Deserialize, Debug, PartialEq, Clone)]
 pub struct Newtype(pub u64);
 
+impl Describe for Newtype {
+    fn ty() -> Value {
+        newtype("Newtype", d::<u64>())
+    }
+}
+
 #[derive(Serialize, Deserialize, Debug, PartialEq, Clone)]
 pub struct NewtypeOfStruct(pub Inner);
 
+impl Describe for NewtypeOfStruct {
+    fn ty() -> Value {
+        newtype("NewtypeOfStruct", d::<Inner>())
+    }
+}
+
 #[derive(Serialize, Deserialize, Debug, PartialEq, Clone)]
 pub struct UnitS;
+
+impl Describe for UnitS {
+    fn ty() -> Value {
+        unit_struct("UnitS")
+    }
+}
 
 #[derive(Serialize, Deserialize, Debug, PartialEq, Clone)]
 pub struct WithUnit {
@@ -102,14 +353,32 @@ pub struct WithUnit {
     pub s: UnitS,
 }
 
+impl Describe for WithUnit {
+    fn ty() -> Value {
+        st("WithUnit", vec![f("a", d::<i32>()), f("u", d::<()>()), f("s", d::<UnitS>())])
+    }
+}
+
 #[derive(Serialize, Deserialize, Debug, PartialEq, Clone)]
 pub struct Empty {}
+
+impl Describe for Empty {
+    fn ty() -> Value {
+        st("Empty", vec![])
+    }
+}
 
 #[derive(Serialize, Deserialize, Debug, PartialEq, Clone)]
 pub struct HasEmpty {
     pub e: Empty,
     pub k: i32,
     pub oe: Option<Empty>,
+}
+
+impl Describe for HasEmpty {
+    fn ty() -> Value {
+        st("HasEmpty", vec![f("e", d::<Empty>()), f("k", d::<i32>()), f("oe", d::<Option<Empty>>())])
+    }
 }
 
 #[derive(Serialize, Deserialize, Debug, PartialEq, Clone)]
@@ -136,11 +405,23 @@ pub struct Wide {
     pub f19: (i8, u8),
 }
 
+impl Describe for Wide {
+    fn ty() -> Value {
+        st("Wide", vec![f("f00", d::<Option<i32>>()), f("f01", d::<i8>()), f("f02", d::<Option<String>>()), f("f03", d::<u16>()), f("f04", d::<Option<bool>>()), f("f05", d::<f32>()), f("f06", d::<Option<i64>>()), f("f07", d::<char>()), f("f08", d::<Option<u8>>()), f("f09", d::<String>()), f("f10", d::<Option<f64>>()), f("f11", d::<u32>()), f("f12", d::<Option<i16>>()), f("f13", d::<bool>()), f("f14", d::<Option<u64>>()), f("f15", d::<i64>()), f("f16", d::<Option<char>>()), f("f17", d::<u8>()), f("f18", d::<Option<Vec<i8>>>()), f("f19", d::<(i8, u8)>())])
+    }
+}
+
 #[derive(Serialize, Deserialize, Debug, PartialEq, Clone)]
 pub struct Boxed {
     pub b: Box<Inner>,
     pub o: Option<Box<Inner>>,
     pub v: Vec<Box<i32>>,
+}
+
+impl Describe for Boxed {
+    fn ty() -> Value {
+        st("Boxed", vec![f("b", d::<Box<Inner>>()), f("o", d::<Option<Box<Inner>>>()), f("v", d::<Vec<Box<i32>>>())])
+    }
 }
 
 // ------------------------------------------------------------------------------------------------ enums
@@ -152,6 +433,12 @@ pub enum AllKinds {
     Struct { a: bool, b: f32 },
 }
 
+impl Describe for AllKinds {
+    fn ty() -> Value {
+        en("AllKinds", vec![vu("Unit"), vn("New", d::<i32>()), vt("Tup", vec![d::<i8>(), d::<String>()]), vs("Struct", vec![f("a", d::<bool>()), f("b", d::<f32>())])])
+    }
+}
+
 #[derive(Serialize, Deserialize, Debug, PartialEq, Clone)]
 pub enum DataOnly {
     A(i32),
@@ -160,11 +447,23 @@ pub enum DataOnly {
     D(i64, i64),
 }
 
+impl Describe for DataOnly {
+    fn ty() -> Value {
+        en("DataOnly", vec![vn("A", d::<i32>()), vn("B", d::<String>()), vs("C", vec![f("x", d::<u8>()), f("y", d::<Option<String>>())]), vt("D", vec![d::<i64>(), d::<i64>()])])
+    }
+}
+
 #[derive(Serialize, Deserialize, Debug, PartialEq, Clone)]
 pub enum Color {
     Red,
     Green,
     Blue,
+}
+
+impl Describe for Color {
+    fn ty() -> Value {
+        en("Color", vec![vu("Red"), vu("Green"), vu("Blue")])
+    }
 }
 
 /// a "data-less" enum in the tracer's eyes although one variant carries a (unit) payload: with
@@ -175,10 +474,22 @@ pub enum UnitPayload {
     B(()),
 }
 
+impl Describe for UnitPayload {
+    fn ty() -> Value {
+        en("UnitPayload", vec![vu("A"), vn("B", d::<()>())])
+    }
+}
+
 #[derive(Serialize, Deserialize, Debug, PartialEq, Clone)]
 pub struct HasUnitPayload {
     pub e: UnitPayload,
     pub n: i32,
+}
+
+impl Describe for HasUnitPayload {
+    fn ty() -> Value {
+        st("HasUnitPayload", vec![f("e", d::<UnitPayload>()), f("n", d::<i32>())])
+    }
 }
 
 #[derive(Serialize, Deserialize, Debug, PartialEq, Clone)]
@@ -188,15 +499,33 @@ pub struct HasColor {
     pub cs: Vec<Color>,
 }
 
+impl Describe for HasColor {
+    fn ty() -> Value {
+        st("HasColor", vec![f("c", d::<Color>()), f("n", d::<i32>()), f("cs", d::<Vec<Color>>())])
+    }
+}
+
 #[derive(Serialize, Deserialize, Debug, PartialEq, Clone)]
 pub struct OptColor {
     pub c: Option<Color>,
     pub n: i32,
 }
 
+impl Describe for OptColor {
+    fn ty() -> Value {
+        st("OptColor", vec![f("c", d::<Option<Color>>()), f("n", d::<i32>())])
+    }
+}
+
 #[derive(Serialize, Deserialize, Debug, PartialEq, Clone)]
 pub struct EnumVec {
     pub es: Vec<DataOnly>,
+}
+
+impl Describe for EnumVec {
+    fn ty() -> Value {
+        st("EnumVec", vec![f("es", d::<Vec<DataOnly>>())])
+    }
 }
 
 #[derive(Serialize, Deserialize, Debug, PartialEq, Clone)]
@@ -205,9 +534,21 @@ pub struct Tagged {
     pub w: u16,
 }
 
+impl Describe for Tagged {
+    fn ty() -> Value {
+        st("Tagged", vec![f("tag", d::<DataOnly>()), f("w", d::<u16>())])
+    }
+}
+
 #[derive(Serialize, Deserialize, Debug, PartialEq, Clone)]
 pub struct EnumInStructInVec {
     pub items: Vec<Tagged>,
+}
+
+impl Describe for EnumInStructInVec {
+    fn ty() -> Value {
+        st("EnumInStructInVec", vec![f("items", d::<Vec<Tagged>>())])
+    }
 }
 
 #[derive(Serialize, Deserialize, Debug, PartialEq, Clone)]
@@ -215,6 +556,12 @@ pub enum EnumNested {
     L(DataOnly),
     R { inner: DataOnly, k: i8 },
     P(Box<DataOnly>, Tagged),
+}
+
+impl Describe for EnumNested {
+    fn ty() -> Value {
+        en("EnumNested", vec![vn("L", d::<DataOnly>()), vs("R", vec![f("inner", d::<DataOnly>()), f("k", d::<i8>())]), vt("P", vec![d::<Box<DataOnly>>(), d::<Tagged>()])])
+    }
 }
 
 #[derive(Serialize, Deserialize, Debug, PartialEq, Clone)]
@@ -225,6 +572,12 @@ pub enum Payloads {
     S(Inner),
     A([u8; 3]),
     VV { rows: Vec<Vec<u8>>, names: Vec<Option<String>> },
+}
+
+impl Describe for Payloads {
+    fn ty() -> Value {
+        en("Payloads", vec![vn("V", d::<Vec<i32>>()), vn("O", d::<Option<String>>()), vn("T", d::<(i8, i8)>()), vn("S", d::<Inner>()), vn("A", d::<[u8; 3]>()), vs("VV", vec![f("rows", d::<Vec<Vec<u8>>>()), f("names", d::<Vec<Option<String>>>())])])
+    }
 }
 
 #[derive(Serialize, Deserialize, Debug, PartialEq, Clone)]
@@ -246,10 +599,22 @@ pub enum ManyVariants {
     V14(i8, i8, i8),
 }
 
+impl Describe for ManyVariants {
+    fn ty() -> Value {
+        en("ManyVariants", vec![vn("V0", d::<i8>()), vn("V1", d::<i16>()), vn("V2", d::<i32>()), vn("V3", d::<i64>()), vn("V4", d::<u8>()), vn("V5", d::<u16>()), vn("V6", d::<u32>()), vn("V7", d::<u64>()), vn("V8", d::<f32>()), vn("V9", d::<f64>()), vn("V10", d::<bool>()), vn("V11", d::<char>()), vn("V12", d::<String>()), vs("V13", vec![f("a", d::<i8>()), f("b", d::<i8>())]), vt("V14", vec![d::<i8>(), d::<i8>(), d::<i8>()])])
+    }
+}
+
 #[derive(Serialize, Deserialize, Debug, PartialEq, Clone)]
 pub struct OptEnum {
     pub e: Option<DataOnly>,
     pub k: i32,
+}
+
+impl Describe for OptEnum {
+    fn ty() -> Value {
+        st("OptEnum", vec![f("e", d::<Option<DataOnly>>()), f("k", d::<i32>())])
+    }
 }
 
 #[derive(Serialize, Deserialize, Debug, PartialEq, Clone)]
@@ -258,10 +623,22 @@ pub struct ResultField {
     pub rs: Vec<Result<Inner, u8>>,
 }
 
+impl Describe for ResultField {
+    fn ty() -> Value {
+        st("ResultField", vec![f("r", d::<Result<i32, String>>()), f("rs", d::<Vec<Result<Inner, u8>>>())])
+    }
+}
+
 #[derive(Serialize, Deserialize, Debug, PartialEq, Clone)]
 pub struct EnumWithUnitInVec {
     pub es: Vec<AllKinds>,
     pub k: u8,
+}
+
+impl Describe for EnumWithUnitInVec {
+    fn ty() -> Value {
+        st("EnumWithUnitInVec", vec![f("es", d::<Vec<AllKinds>>()), f("k", d::<u8>())])
+    }
 }
 
 // ------------------------------------------------------------------------------------------------ Option / Vec
@@ -277,6 +654,12 @@ pub struct Opts {
     pub h: Option<f32>,
 }
 
+impl Describe for Opts {
+    fn ty() -> Value {
+        st("Opts", vec![f("a", d::<Option<i32>>()), f("b", d::<Option<String>>()), f("c", d::<Option<bool>>()), f("d", d::<Option<f64>>()), f("e", d::<Option<char>>()), f("f", d::<Option<u64>>()), f("g", d::<Option<i8>>()), f("h", d::<Option<f32>>())])
+    }
+}
+
 #[derive(Serialize, Deserialize, Debug, PartialEq, Clone)]
 pub struct OptStruct {
     pub s: Option<Inner>,
@@ -284,10 +667,22 @@ pub struct OptStruct {
     pub n: Option<Nested>,
 }
 
+impl Describe for OptStruct {
+    fn ty() -> Value {
+        st("OptStruct", vec![f("s", d::<Option<Inner>>()), f("t", d::<i32>()), f("n", d::<Option<Nested>>())])
+    }
+}
+
 #[derive(Serialize, Deserialize, Debug, PartialEq, Clone)]
 pub struct OptVec {
     pub v: Option<Vec<i32>>,
     pub w: Option<Vec<String>>,
+}
+
+impl Describe for OptVec {
+    fn ty() -> Value {
+        st("OptVec", vec![f("v", d::<Option<Vec<i32>>>()), f("w", d::<Option<Vec<String>>>())])
+    }
 }
 
 #[derive(Serialize, Deserialize, Debug, PartialEq, Clone)]
@@ -297,6 +692,12 @@ pub struct VecOpt {
     pub t: Vec<Option<Inner>>,
 }
 
+impl Describe for VecOpt {
+    fn ty() -> Value {
+        st("VecOpt", vec![f("v", d::<Vec<Option<i64>>>()), f("s", d::<Vec<Option<String>>>()), f("t", d::<Vec<Option<Inner>>>())])
+    }
+}
+
 #[derive(Serialize, Deserialize, Debug, PartialEq, Clone)]
 pub struct NestedOpt {
     pub o: Option<Option<i32>>,
@@ -304,9 +705,21 @@ pub struct NestedOpt {
     pub s: Option<Option<String>>,
 }
 
+impl Describe for NestedOpt {
+    fn ty() -> Value {
+        st("NestedOpt", vec![f("o", d::<Option<Option<i32>>>()), f("k", d::<u8>()), f("s", d::<Option<Option<String>>>())])
+    }
+}
+
 #[derive(Serialize, Deserialize, Debug, PartialEq, Clone)]
 pub struct NestedOptInVec {
     pub v: Vec<Option<Option<i16>>>,
+}
+
+impl Describe for NestedOptInVec {
+    fn ty() -> Value {
+        st("NestedOptInVec", vec![f("v", d::<Vec<Option<Option<i16>>>>())])
+    }
 }
 
 #[derive(Serialize, Deserialize, Debug, PartialEq, Clone)]
@@ -316,10 +729,22 @@ pub struct VecVec {
     pub vvv: Vec<Vec<Vec<bool>>>,
 }
 
+impl Describe for VecVec {
+    fn ty() -> Value {
+        st("VecVec", vec![f("vv", d::<Vec<Vec<u16>>>()), f("vs", d::<Vec<Vec<String>>>()), f("vvv", d::<Vec<Vec<Vec<bool>>>>())])
+    }
+}
+
 #[derive(Serialize, Deserialize, Debug, PartialEq, Clone)]
 pub struct VecStruct {
     pub v: Vec<Inner>,
     pub n: Vec<Nested>,
+}
+
+impl Describe for VecStruct {
+    fn ty() -> Value {
+        st("VecStruct", vec![f("v", d::<Vec<Inner>>()), f("n", d::<Vec<Nested>>())])
+    }
 }
 
 #[derive(Serialize, Deserialize, Debug, PartialEq, Clone)]
@@ -329,9 +754,21 @@ pub struct SeqCollections {
     pub bs: Box<[u16]>,
 }
 
+impl Describe for SeqCollections {
+    fn ty() -> Value {
+        st("SeqCollections", vec![f("set", d::<BTreeSet<i32>>()), f("dq", d::<VecDeque<String>>()), f("bs", d::<Box<[u16]>>())])
+    }
+}
+
 #[derive(Serialize, Deserialize, Debug, PartialEq, Clone)]
 pub struct HashSetField {
     pub hs: HashSet<u32>,
+}
+
+impl Describe for HashSetField {
+    fn ty() -> Value {
+        st("HashSetField", vec![f("hs", d::<HashSet<u32>>())])
+    }
 }
 
 #[derive(Serialize, Deserialize, Debug, PartialEq, Clone)]
@@ -339,6 +776,12 @@ pub struct Deep {
     pub a: Vec<Option<Vec<Inner>>>,
     pub b: Option<Vec<Option<(i8, String)>>>,
     pub c: Vec<Vec<Option<DataOnly>>>,
+}
+
+impl Describe for Deep {
+    fn ty() -> Value {
+        st("Deep", vec![f("a", d::<Vec<Option<Vec<Inner>>>>()), f("b", d::<Option<Vec<Option<(i8, String)>>>>()), f("c", d::<Vec<Vec<Option<DataOnly>>>>())])
+    }
 }
 
 // ------------------------------------------------------------------------------------------------ arrays / tuples
@@ -350,11 +793,23 @@ pub struct Arrays {
     pub d: [[i8; 2]; 2],
 }
 
+impl Describe for Arrays {
+    fn ty() -> Value {
+        st("Arrays", vec![f("a", d::<[u8; 4]>()), f("b", d::<[i32; 2]>()), f("c", d::<[String; 3]>()), f("d", d::<[[i8; 2]; 2]>())])
+    }
+}
+
 #[derive(Serialize, Deserialize, Debug, PartialEq, Clone)]
 pub struct Tuples {
     pub t: (i32, String),
     pub u: (bool,),
     pub n: ((i8, i16), (String, (u8, f32))),
+}
+
+impl Describe for Tuples {
+    fn ty() -> Value {
+        st("Tuples", vec![f("t", d::<(i32, String)>()), f("u", d::<(bool,)>()), f("n", d::<((i8, i16), (String, (u8, f32)))>())])
+    }
 }
 
 pub type RootTuple = (i32, String, Option<bool>);
@@ -366,15 +821,33 @@ pub struct TupleInVec {
     pub oa: Option<[i16; 2]>,
 }
 
+impl Describe for TupleInVec {
+    fn ty() -> Value {
+        st("TupleInVec", vec![f("v", d::<Vec<(String, i32)>>()), f("o", d::<Option<(u8, char)>>()), f("oa", d::<Option<[i16; 2]>>())])
+    }
+}
+
 // ------------------------------------------------------------------------------------------------ maps
 #[derive(Serialize, Deserialize, Debug, PartialEq, Clone)]
 pub struct HMap {
     pub m: HashMap<String, i32>,
 }
 
+impl Describe for HMap {
+    fn ty() -> Value {
+        st("HMap", vec![f("m", d::<HashMap<String, i32>>())])
+    }
+}
+
 #[derive(Serialize, Deserialize, Debug, PartialEq, Clone)]
 pub struct BMapStruct {
     pub m: BTreeMap<String, Inner>,
+}
+
+impl Describe for BMapStruct {
+    fn ty() -> Value {
+        st("BMapStruct", vec![f("m", d::<BTreeMap<String, Inner>>())])
+    }
 }
 
 #[derive(Serialize, Deserialize, Debug, PartialEq, Clone)]
@@ -383,9 +856,21 @@ pub struct BMapIntKey {
     pub n: BTreeMap<u8, Option<bool>>,
 }
 
+impl Describe for BMapIntKey {
+    fn ty() -> Value {
+        st("BMapIntKey", vec![f("m", d::<BTreeMap<i64, String>>()), f("n", d::<BTreeMap<u8, Option<bool>>>())])
+    }
+}
+
 #[derive(Serialize, Deserialize, Debug, PartialEq, Clone)]
 pub struct BMapVecValues {
     pub m: BTreeMap<String, Vec<Option<i32>>>,
+}
+
+impl Describe for BMapVecValues {
+    fn ty() -> Value {
+        st("BMapVecValues", vec![f("m", d::<BTreeMap<String, Vec<Option<i32>>>>())])
+    }
 }
 
 #[derive(Serialize, Deserialize, Debug, PartialEq, Clone)]
@@ -394,9 +879,21 @@ pub struct MapInVec {
     pub o: Option<BTreeMap<String, String>>,
 }
 
+impl Describe for MapInVec {
+    fn ty() -> Value {
+        st("MapInVec", vec![f("v", d::<Vec<BTreeMap<String, u8>>>()), f("o", d::<Option<BTreeMap<String, String>>>())])
+    }
+}
+
 #[derive(Serialize, Deserialize, Debug, PartialEq, Clone)]
 pub struct MapEnumValues {
     pub m: BTreeMap<String, DataOnly>,
+}
+
+impl Describe for MapEnumValues {
+    fn ty() -> Value {
+        st("MapEnumValues", vec![f("m", d::<BTreeMap<String, DataOnly>>())])
+    }
 }
 
 /// a map KEY that is an enum with data: `from_type` needs several exploration passes for the key tracer
@@ -408,15 +905,33 @@ pub enum KeyEnum {
     Pair { a: u8, b: i64 },
 }
 
+impl Describe for KeyEnum {
+    fn ty() -> Value {
+        en("KeyEnum", vec![vn("Id", d::<i32>()), vt("Name", vec![d::<String>(), d::<bool>()]), vu("Anon"), vs("Pair", vec![f("a", d::<u8>()), f("b", d::<i64>())])])
+    }
+}
+
 #[derive(Serialize, Deserialize, Debug, PartialEq, Clone)]
 pub struct MapEnumKeys {
     pub m: BTreeMap<KeyEnum, i32>,
     pub v: Vec<Option<BTreeMap<KeyEnum, String>>>,
 }
 
+impl Describe for MapEnumKeys {
+    fn ty() -> Value {
+        st("MapEnumKeys", vec![f("m", d::<BTreeMap<KeyEnum, i32>>()), f("v", d::<Vec<Option<BTreeMap<KeyEnum, String>>>>())])
+    }
+}
+
 #[derive(Serialize, Deserialize, Debug, PartialEq, Clone)]
 pub struct MapOfMaps {
     pub m: BTreeMap<String, BTreeMap<i32, f32>>,
+}
+
+impl Describe for MapOfMaps {
+    fn ty() -> Value {
+        st("MapOfMaps", vec![f("m", d::<BTreeMap<String, BTreeMap<i32, f32>>>())])
+    }
 }
 
 // ------------------------------------------------------------------------------------------------ strings / bytes / chars
@@ -429,12 +944,24 @@ pub struct Strs {
     pub e: Vec<Cow<'static, str>>,
 }
 
+impl Describe for Strs {
+    fn ty() -> Value {
+        st("Strs", vec![f("a", d::<String>()), f("b", d::<Box<str>>()), f("c", d::<Cow<'static, str>>()), f("d", d::<Option<Box<str>>>()), f("e", d::<Vec<Cow<'static, str>>>())])
+    }
+}
+
 #[derive(Serialize, Deserialize, Debug, PartialEq, Clone)]
 pub struct Bytes {
     pub b: serde_bytes::ByteBuf,
     pub v: Vec<u8>,
     #[serde(with = "serde_bytes")]
     pub w: Vec<u8>,
+}
+
+impl Describe for Bytes {
+    fn ty() -> Value {
+        st("Bytes", vec![f("b", d::<serde_bytes::ByteBuf>()), f("v", d::<Vec<u8>>()), f("w", byte_buf())])
+    }
 }
 
 #[derive(Serialize, Deserialize, Debug, PartialEq, Clone)]
@@ -444,11 +971,23 @@ pub struct BytesNested {
     pub ov: Vec<Option<serde_bytes::ByteBuf>>,
 }
 
+impl Describe for BytesNested {
+    fn ty() -> Value {
+        st("BytesNested", vec![f("o", d::<Option<serde_bytes::ByteBuf>>()), f("v", d::<Vec<serde_bytes::ByteBuf>>()), f("ov", d::<Vec<Option<serde_bytes::ByteBuf>>>())])
+    }
+}
+
 #[derive(Serialize, Deserialize, Debug, PartialEq, Clone)]
 pub struct Chars {
     pub c: char,
     pub v: Vec<char>,
     pub o: Option<char>,
+}
+
+impl Describe for Chars {
+    fn ty() -> Value {
+        st("Chars", vec![f("c", d::<char>()), f("v", d::<Vec<char>>()), f("o", d::<Option<char>>())])
+    }
 }
 
 // ------------------------------------------------------------------------------------------------ attributes
@@ -463,6 +1002,12 @@ pub struct Renamed {
     pub plain: bool,
 }
 
+impl Describe for Renamed {
+    fn ty() -> Value {
+        st("Renamed", vec![f("type", d::<i32>()), f("väl ue", d::<String>()), f("", d::<u8>()), f("plain", d::<bool>())])
+    }
+}
+
 #[derive(Serialize, Deserialize, Debug, PartialEq, Clone)]
 #[serde(rename_all = "camelCase")]
 pub struct Camel {
@@ -471,11 +1016,23 @@ pub struct Camel {
     pub is_admin: Option<bool>,
 }
 
+impl Describe for Camel {
+    fn ty() -> Value {
+        st("Camel", vec![f("firstName", d::<String>()), f("lastLoginAt", d::<i64>()), f("isAdmin", d::<Option<bool>>())])
+    }
+}
+
 #[derive(Serialize, Deserialize, Debug, PartialEq, Clone)]
 #[serde(rename_all = "SCREAMING_SNAKE_CASE")]
 pub struct Scream {
     pub first_name: String,
     pub retry_count: u32,
+}
+
+impl Describe for Scream {
+    fn ty() -> Value {
+        st("Scream", vec![f("FIRST_NAME", d::<String>()), f("RETRY_COUNT", d::<u32>())])
+    }
 }
 
 #[derive(Serialize, Deserialize, Debug, PartialEq, Clone)]
@@ -487,6 +1044,12 @@ pub enum RenamedVariants {
     Third(u8, u8),
 }
 
+impl Describe for RenamedVariants {
+    fn ty() -> Value {
+        en("RenamedVariants", vec![vn("first-case", d::<i32>()), vs("second-case", vec![f("inner_value", d::<String>())]), vt("3rd", vec![d::<u8>(), d::<u8>()])])
+    }
+}
+
 #[derive(Serialize, Deserialize, Debug, PartialEq, Clone)]
 #[serde(rename_all = "snake_case")]
 pub enum RenamedColor {
@@ -496,10 +1059,22 @@ pub enum RenamedColor {
     Blue,
 }
 
+impl Describe for RenamedColor {
+    fn ty() -> Value {
+        en("RenamedColor", vec![vu("dark_red"), vu("light_green"), vu("BLUE!")])
+    }
+}
+
 #[derive(Serialize, Deserialize, Debug, PartialEq, Clone)]
 pub struct HasRenamedColor {
     pub c: RenamedColor,
     pub o: Option<RenamedColor>,
+}
+
+impl Describe for HasRenamedColor {
+    fn ty() -> Value {
+        st("HasRenamedColor", vec![f("c", d::<RenamedColor>()), f("o", d::<Option<RenamedColor>>())])
+    }
 }
 
 fn seven() -> u8 {
@@ -519,12 +1094,24 @@ pub struct Defaults {
     pub e: Vec<i8>,
 }
 
+impl Describe for Defaults {
+    fn ty() -> Value {
+        st("Defaults", vec![f("a", d::<i32>()), f("b", d::<u8>()), f("c", d::<String>()), f("d", d::<Option<Inner>>()), f("e", d::<Vec<i8>>())])
+    }
+}
+
 #[derive(Serialize, Deserialize, Debug, PartialEq, Clone, Default)]
 #[serde(default)]
 pub struct ContainerDefault {
     pub a: i32,
     pub s: String,
     pub o: Option<u16>,
+}
+
+impl Describe for ContainerDefault {
+    fn ty() -> Value {
+        st("ContainerDefault", vec![f("a", d::<i32>()), f("s", d::<String>()), f("o", d::<Option<u16>>())])
+    }
 }
 
 #[derive(Serialize, Deserialize, Debug, PartialEq, Clone)]
@@ -540,6 +1127,12 @@ pub struct Skips {
     pub e: Option<Vec<u8>>,
 }
 
+impl Describe for Skips {
+    fn ty() -> Value {
+        st("Skips", vec![skip("a", d::<Option<i32>>()), f("b", d::<String>()), skip("c", d::<Option<String>>()), skip("d", d::<Option<Inner>>()), skip("e", d::<Option<Vec<u8>>>())])
+    }
+}
+
 #[derive(Serialize, Deserialize, Debug, PartialEq, Clone)]
 pub enum SkipsInVariant {
     S {
@@ -550,14 +1143,32 @@ pub enum SkipsInVariant {
     N(i8),
 }
 
+impl Describe for SkipsInVariant {
+    fn ty() -> Value {
+        en("SkipsInVariant", vec![vs("S", vec![skip("a", d::<Option<i32>>()), f("b", d::<u8>())]), vn("N", d::<i8>())])
+    }
+}
+
 #[derive(Serialize, Deserialize, Debug, PartialEq, Clone)]
 #[serde(transparent)]
 pub struct Meters(pub f64);
+
+impl Describe for Meters {
+    fn ty() -> Value {
+        d::<f64>() // #[serde(transparent)]: the inner type itself
+    }
+}
 
 #[derive(Serialize, Deserialize, Debug, PartialEq, Clone)]
 #[serde(transparent)]
 pub struct TransparentStruct {
     pub inner: Inner,
+}
+
+impl Describe for TransparentStruct {
+    fn ty() -> Value {
+        d::<Inner>() // #[serde(transparent)]: the inner type itself
+    }
 }
 
 #[derive(Serialize, Deserialize, Debug, PartialEq, Clone)]
@@ -568,11 +1179,23 @@ pub struct HasTransparent {
     pub t: TransparentStruct,
 }
 
+impl Describe for HasTransparent {
+    fn ty() -> Value {
+        st("HasTransparent", vec![f("m", d::<Meters>()), f("om", d::<Option<Meters>>()), f("vm", d::<Vec<Meters>>()), f("t", d::<TransparentStruct>())])
+    }
+}
+
 // ------------------------------------------------------------------------------------------------ borrowed targets
 #[derive(Serialize, Deserialize, Debug, PartialEq, Clone)]
 pub struct BorrowStr<'a> {
     pub s: &'a str,
     pub n: i32,
+}
+
+impl<'a> Describe for BorrowStr<'a> {
+    fn ty() -> Value {
+        st("BorrowStr", vec![f("s", d::<&str>()), f("n", d::<i32>())])
+    }
 }
 
 #[derive(Serialize, Deserialize, Debug, PartialEq, Clone)]
@@ -583,12 +1206,26 @@ pub struct BorrowBytes<'a> {
     pub w: &'a [u8],
 }
 
+impl<'a> Describe for BorrowBytes<'a> {
+    fn ty() -> Value {
+        st("BorrowBytes", vec![f("b", d::<&[u8]>()), f("w", json!({"t": "bytes", "target": "bytes"}))])
+    }
+}
+
 #[derive(Serialize, Deserialize, Debug, PartialEq, Clone)]
 pub struct BorrowCow<'a> {
     #[serde(borrow)]
     pub c: Cow<'a, str>,
     #[serde(borrow)]
     pub o: Option<Cow<'a, str>>,
+}
+
+impl<'a> Describe for BorrowCow<'a> {
+    fn ty() -> Value {
+        // `#[serde(borrow)]` on exactly `Cow<str>`: `deserialize_str` with a visitor that borrows when it can; below an Option
+        // serde does not special-case it: the std impl of `Cow` (through `String`)
+        st("BorrowCow", vec![f("c", borrowed_str()), f("o", d::<Option<String>>())])
+    }
 }
 
 #[derive(Serialize, Deserialize, Debug, PartialEq, Clone)]
@@ -603,6 +1240,12 @@ pub struct BorrowNested<'a> {
     pub inner: BorrowStr<'a>,
 }
 
+impl<'a> Describe for BorrowNested<'a> {
+    fn ty() -> Value {
+        st("BorrowNested", vec![f("o", d::<Option<&str>>()), f("v", d::<Vec<&str>>()), f("t", d::<(&str, u8)>()), f("inner", d::<BorrowStr>())])
+    }
+}
+
 #[derive(Serialize, Deserialize, Debug, PartialEq, Clone)]
 pub enum BorrowEnum<'a> {
     S(&'a str),
@@ -611,6 +1254,12 @@ pub enum BorrowEnum<'a> {
         inner: BorrowStr<'a>,
     },
     N(i8),
+}
+
+impl<'a> Describe for BorrowEnum<'a> {
+    fn ty() -> Value {
+        en("BorrowEnum", vec![vn("S", d::<&str>()), vs("R", vec![f("inner", d::<BorrowStr>())]), vn("N", d::<i8>())])
+    }
 }
 
 // ------------------------------------------------------------------------------------------------ ZooTy impls
